@@ -280,6 +280,16 @@ let () =
           (* SPEC: emptiness is transparent; the dimension that ignores empties is the base's *)
           if f.(6) <> f.(8) then fail id "SPEC" "is_empty_transparent" (Printf.sprintf "with=%s without=%s" f.(6) f.(8));
           if dimension_ie ins <> dimension_ie base then fail id "CORR" "dimension_ie_model" "model not transparent";
+          (* CORR: the cited models (Envelope, Area) on the geometry with inserted members *)
+          let menv = match env_z ins with
+            | None -> "empty"
+            | Some ((a, b), (c, d)) -> Printf.sprintf "%d %d %d %d" (int_of_z a) (int_of_z b) (int_of_z c) (int_of_z d) in
+          if menv <> f.(10) then fail id "CORR" "envelope" (Printf.sprintf "model=%s impl=%s" menv f.(10));
+          let a2 = area2_q ins in
+          let ma = float_of_int (int_of_z a2.qnum) /. float_of_int (int_of_pos a2.qden) in
+          (match float_of_string_opt f.(11) with
+           | Some ia when Float.abs (ia -. ma) <= 1e-9 *. Float.max 1.0 (Float.abs ma) -> ()
+           | _ -> fail id "CORR" "area" (Printf.sprintf "model 2A=%g impl 2A=%s" ma f.(11)));
           if !samples < 2 then begin incr samples; Printf.printf "SAMPLE\t%s\n" (trunc line) end
         | "C" ->
           let kind = f.(2) and recv = f.(3) and meth = f.(4) and ops = f.(5) and ws = f.(6) and tm = f.(7)
